@@ -97,6 +97,7 @@ void mc_exists(int slot) { if (ctl) ctl->exists_mask |= 1u << (slot & 31); }
 void mc_observe(int slot, long v) { observes[slot & 7] = v; }
 void mc_step(void) { sched_point(OP_STEP, NULL, 0); }
 int mc_self(void) { return my_tid; }
+int mc_is_free_running(void) { return 0; }
 long mc_exec_id(void) { return ctl ? ctl->exec_id : 0; }
 void mc_wait_all(void) { int i; sched_point(OP_WAITALL, NULL, 0); for (i = 0; i < nthreads; i++) if (i != my_tid && T[i].used) { vc_join(T[my_tid].vc, T[i].vc); ch_note(T[i].ch); } }
 void mc_mark(void) { T[my_tid].blocked_count = 0; T[my_tid].long_waits = 0; }
@@ -627,6 +628,7 @@ int mc_main(int argc, char **argv, const McHarness *hs, int nh)
     for (i = 0; i < 32; i++) if (g_nontrivial_execs[i]) { char k[48]; snprintf(k, sizeof k, "nontrivial_slot%d_executions", i); hout_stat(k, g_nontrivial_execs[i]); }
     fprintf(hout_f, "{\"t\":\"exists\",\"job\":"); hout_esc(hout_f, cmdline); fprintf(hout_f, ",\"mask\":%u}\n", g_exists);
     if (xs.capped) { fprintf(hout_f, "{\"t\":\"incomplete\",\"s\":"); { char b[300]; snprintf(b, sizeof b, "%s stopped by cap after %ld executions", cmdline, xs.execs); hout_esc(hout_f, b); } fprintf(hout_f, "}\n"); }
+    { fprintf(hout_f, "{\"t\":\"outcomes\",\"job\":"); hout_esc(hout_f, cmdline); fprintf(hout_f, ",\"list\":["); for (i = 0; i < noutcomes && i < 500; i++) { if (i) fputc(',', hout_f); hout_esc(hout_f, outcomes[i]); } fprintf(hout_f, "]}\n"); }
     for (i = 0; i < noutcomes && i < 3; i++) hout_sample("%s: outcome \"%s\"", cmdline, outcomes[i]);
     hout_sample("%s: %ld executions, %ld visible steps, bounds p<=%d s<=%d d<=%d", cmdline, xs.execs, xs.steps, B.preemptions, B.spurious, B.deviations);
     fflush(hout_f);
